@@ -1373,6 +1373,9 @@ static int ksi_CalendarHashChain_verifyRightLinkCompatibility(const KSI_Calendar
 				++bi;
 				break;
 			}
+
+			/* Not a right link - forget it, otherwise it would be compared below when the list runs out. */
+			bLink = NULL;
 		}
 
 		/* If the second list did not contain any more right links, return an error. */
